@@ -3,6 +3,7 @@
  * The objective callback of NelderMeadSimplex is the observation seam (no hook): every evaluation is seen.
  *   full  runs: every evaluation is logged (order-preserving 3-limb code of the double) -> TraceNM.tla infers the moves
  *   light runs: only the summary is logged -> TraceNMProp.tla (result contract, distance to the true minimiser)
+ *        c19_nm family <cases.txt> <out.ndjson>     (the integer family enumerated by TLC from spec/NMTie.tla, start class 10)
  * Events:
  *   Reset{id,n,maxit,cap,full}     cap = (n+1) + maxit*(n+3) objective evaluations at most
  *   Eval{v[3]}                     (full runs) one objective evaluation
@@ -44,34 +45,148 @@ static void make_quadratic(vrng *g, int d, double cond){
   f0 = (vr_unif(g) - 0.5) * 10.0;
 }
 
+/* solve A w = rhs (A symmetric positive definite, d <= 6): Gauss elimination with partial pivoting */
+static void solve_spd(int d, double *rhs, double *w){
+  double M[MAXD][MAXD + 1];
+  for(int i = 0; i < d; i++){ for(int j = 0; j < d; j++) M[i][j] = A[i][j]; M[i][d] = rhs[i]; }
+  for(int c = 0; c < d; c++){
+    int pv = c; for(int r = c + 1; r < d; r++) if(fabs(M[r][c]) > fabs(M[pv][c])) pv = r;
+    for(int j = 0; j <= d; j++){ double t = M[c][j]; M[c][j] = M[pv][j]; M[pv][j] = t; }
+    for(int r = c + 1; r < d; r++){ double f = M[r][c] / M[c][c]; for(int j = c; j <= d; j++) M[r][j] -= f * M[c][j]; }
+  }
+  for(int i = d - 1; i >= 0; i--){ double t = M[i][d]; for(int j = i + 1; j < d; j++) t -= M[i][j] * w[j]; w[i] = t / M[i][i]; }
+}
+static double plain_quad(const double *x){
+  double s = f0;
+  for(int i = 0; i < dim; i++) for(int j = 0; j < dim; j++) s += (x[i] - ctr[i]) * A[i][j] * (x[j] - ctr[j]);
+  return s;
+}
+/* spread of the objective over the initial simplex {x0, x0 + s_j e_j} */
+static double init_spread(const double *x0, const double *st){
+  double lo = plain_quad(x0), hi = lo, v[MAXD];
+  for(int j = 0; j < dim; j++){ for(int i = 0; i < dim; i++) v[i] = x0[i]; v[j] += st[j]; double f = plain_quad(v); if(f < lo) lo = f; if(f > hi) hi = f; }
+  return hi - lo;
+}
+
+/* start classes (field sc): 0 generic, 2 flat start exact / separable bowl, 3 flat start exact / non-separable (A = dI + J),
+ * 4 flat start to 1e-12 / general quadratic (x0 = m - A^-1 diag(A) s / 2), 5 start AT the minimiser, 6 start 1e3 away,
+ * 7 step decade 1e-3..1e3 (field sd), 9 the previous minimisation once more (same function, start, steps) */
+/* start class 10: the integer family of spec/NMTie.tla (2 dimensions, f = a x^2 + 2 b x y + c y^2, integer start, integer steps), one
+ * line "a b c x0 y0 s1 s2 flat" per start as TLC printed it (flat = the model finds the three initial values equal); summary events only */
+static int family(const char *cases, const char *out){
+  FILE *in = fopen(cases, "r"); if(!in){ perror(cases); return 2; }
+  vrt_open(out);
+  long a, b, c, x0i, y0i, s1, s2, mflat; int id = 0;
+  while(fscanf(in, "%ld %ld %ld %ld %ld %ld %ld %ld", &a, &b, &c, &x0i, &y0i, &s1, &s2, &mflat) == 8){
+    dim = 2; A[0][0] = (double)a; A[0][1] = A[1][0] = (double)b; A[1][1] = (double)c; ctr[0] = ctr[1] = 0; f0 = 0;
+    double x0v[MAXD] = {(double)x0i, (double)y0i}, stv[MAXD] = {(double)s1, (double)s2};
+    size_t maxit = 8000; long cap = 3 + (long)maxit * 5, l[3];
+    dvector *x0, *step, *best; NewDVector(&x0, 2); NewDVector(&step, 2); initDVector(&best);
+    for(int i = 0; i < 2; i++){ x0->data[i] = x0v[i]; step->data[i] = stv[i]; }
+    VRT_EMIT("{\"e\":\"Reset\",\"id\":%d,\"n\":2,\"maxit\":%ld,\"cap\":%ld,\"full\":0,\"sc\":10,\"sd\":0,\"fs\":%ld,\"c100\":0,\"st\":1,\"mflat\":%ld,\"q\":[%ld,%ld,%ld],\"x0\":[%ld,%ld],\"s\":[%ld,%ld]}",
+             id, (long)maxit, cap, vq_unit(init_spread(x0v, stv), 1e-15), mflat, a, b, c, x0i, y0i, s1, s2);
+    nevals = 0; logging = 0; initbest = 0;
+    double res = NelderMeadSimplex(quad, x0, step, 1e-12, maxit, best);
+    long ev = nevals;
+    vcode3(initbest, l); VRT_EMIT("{\"e\":\"InitBest\",\"v\":[%ld,%ld,%ld]}", l[0], l[1], l[2]);
+    vcode3(res, l); VRT_EMIT("{\"e\":\"Return\",\"v\":[%ld,%ld,%ld],\"evals\":%ld}", l[0], l[1], l[2], ev);
+    int shape = best->size == 2; double fb = 0.0 / 0.0, dist = 0;
+    if(shape){ fb = quad(best); dist = sqrt(best->data[0] * best->data[0] + best->data[1] * best->data[1]); }
+    vcode3(fb, l); VRT_EMIT("{\"e\":\"Check\",\"v\":[%ld,%ld,%ld]}", l[0], l[1], l[2]);
+    VRT_EMIT("{\"e\":\"Quad\",\"dim\":2,\"cond\":%d,\"judge\":1,\"conv\":%d,\"dist\":%ld,\"cls\":0,\"R\":-12,\"adist\":%ld,\"sc\":10}", 5, ev < 3 + (long)maxit,
+             shape ? vq9(dist) : VQ_MAX, shape ? vq9(dist) : VQ_MAX);
+    DelDVector(&x0); DelDVector(&step); DelDVector(&best); id++;
+  }
+  fclose(in); vrt_close();
+  return id ? 0 : 2;
+}
+
 int main(int argc, char **argv){
-  if(argc < 5){ fprintf(stderr, "usage: c19_nm out seed nfull nlight\n"); return 2; }
+  if(argc >= 4 && !strcmp(argv[1], "family")) return family(argv[2], argv[3]);
+  if(argc < 5){ fprintf(stderr, "usage: c19_nm out seed nfull nlight | c19_nm family cases out\n"); return 2; }
   vrt_open(argv[1]);
   vrng g = { strtoul(argv[2], 0, 10) * 0x9E3779B97F4A7C15ULL + 99 };
   int nfull = atoi(argv[3]), nlight = atoi(argv[4]);
   static const size_t smallcaps[5] = {0, 1, 2, 5, 20};
+  static const int sctab[12] = {0, 0, 2, 0, 3, 0, 4, 5, 6, 7, 9, 0};
+  double px0[MAXD], pst[MAXD]; int phas = 0, pdim = 0; double pxtol = 0; size_t pmaxit = 0; double pcond = 1;   /* the previous problem (class 9) */
   for(int id = 0; id < nfull + nlight; id++){
     int full = id < nfull;
-    dim = full ? 2 + id % 3 : 2 + id % 5;
-    double cond = (id % 4 == 0) ? 100.0 : 1.0 + 99.0 * vr_unif(&g);
-    make_quadratic(&g, dim, cond);
-    size_t maxit;
-    if(full) maxit = (id % 3 == 2) ? smallcaps[(id / 3) % 5] : 150;
-    else maxit = (id % 6 == 5) ? smallcaps[(id / 6) % 5] : 4000 * (size_t)dim;
-    dvector *x0, *best, *step = NULL; NewDVector(&x0, dim); initDVector(&best);
-    for(int i = 0; i < dim; i++) x0->data[i] = (vr_unif(&g) - 0.5) * 20.0;
-    if(id % 2){ NewDVector(&step, dim); for(int i = 0; i < dim; i++) step->data[i] = (0.1 + 1.9 * vr_unif(&g)) * (vr_unif(&g) < 0.5 ? -1 : 1); }
+    int slot = id % 12, sc = sctab[slot];
+    int cls = (!full && slot == 3) ? 1 : 0;
+    int capped = full ? (slot == 5 || slot == 11 || slot == 1) : (slot == 5);
+    if(sc == 9 && !pdim) sc = 0;
+    double cond = 1; size_t maxit; double xtol = 1e-12; int xe = -12, fe = 1, sd = 0, hasstep = 0;
+    double x0v[MAXD], stv[MAXD];
+    if(sc == 9){                                            /* same function (A, ctr, f0 untouched), same start, same steps */
+      dim = pdim; cond = pcond; maxit = pmaxit; xtol = pxtol; hasstep = phas;
+      for(int i = 0; i < dim; i++){ x0v[i] = px0[i]; stv[i] = pst[i]; }
+      sd = 99;
+    }
+    else{
+      dim = 2 + id % 5;
+      cond = (id % 4 == 0) ? 100.0 : 1.0 + 99.0 * vr_unif(&g);
+      make_quadratic(&g, dim, cond);
+      if(full) maxit = capped ? smallcaps[(id / 3) % 5] : 150;
+      else maxit = capped ? smallcaps[(id / 6) % 5] : 4000 * (size_t)dim;
+      for(int i = 0; i < dim; i++) x0v[i] = (vr_unif(&g) - 0.5) * 20.0;
+      hasstep = id % 2;
+      for(int i = 0; i < dim; i++) stv[i] = hasstep ? (0.1 + 1.9 * vr_unif(&g)) * (vr_unif(&g) < 0.5 ? -1 : 1) : 0.5;
+      if(sc == 2){                                          /* separable bowl, dyadic data: all n+1 initial values are EQUAL */
+        static const double lams[8] = {1, 2, 4, 8, 16, 32, 64, 100};
+        for(int i = 0; i < dim; i++) for(int j = 0; j < dim; j++) A[i][j] = 0;
+        double lmax = 1; A[0][0] = 1;
+        for(int i = 1; i < dim; i++){ A[i][i] = lams[vr_int(&g, 0, 7)]; if(A[i][i] > lmax) lmax = A[i][i]; }
+        cond = lmax;
+        for(int i = 0; i < dim; i++){ ctr[i] = (double)vr_int(&g, -8, 8); stv[i] = (vr_unif(&g) < 0.5 ? -1 : 1) * ldexp(1.0, (int)vr_int(&g, -1, 2)); x0v[i] = ctr[i] - stv[i] / 2; }
+        f0 = (double)vr_int(&g, -20, 20) / 4.0; hasstep = 1;
+        if(vr_unif(&g) < 0.3){ for(int i = 0; i < dim; i++){ stv[i] = 0.5; x0v[i] = ctr[i] - 0.25; } hasstep = 0; }   /* the default steps (step == NULL) */
+      }
+      if(sc == 3){                                          /* A = d I + J (eigenvalues d, d + n), z integer: steps 2 (Az)_j / A_jj, x0 = m - z */
+        static const double ds[3] = {1, 3, 7}; double d = ds[vr_int(&g, 0, 2)], z[MAXD], zs; int ok = 0;
+        for(int i = 0; i < dim; i++) for(int j = 0; j < dim; j++) A[i][j] = (i == j) ? d + 1 : 1;
+        cond = (d + dim) / d;
+        while(!ok){ zs = 0; for(int i = 0; i < dim; i++){ z[i] = (double)vr_int(&g, -3, 3); zs += z[i]; } ok = 1; for(int i = 0; i < dim; i++) if(d * z[i] + zs == 0) ok = 0; }
+        if(dim == 2 && (id / 60) % 3 != 2){ d = ds[vr_int(&g, 0, 1)]; z[0] = (double)vr_int(&g, 1, 3) * (vr_unif(&g) < 0.5 ? -1 : 1); z[1] = -z[0]; zs = 0;     /* antisymmetric start: x0 - m = (t, -t) */
+          for(int i = 0; i < dim; i++) for(int j = 0; j < dim; j++) A[i][j] = (i == j) ? d + 1 : 1; cond = (d + dim) / d; }
+        for(int i = 0; i < dim; i++){ ctr[i] = (double)vr_int(&g, -8, 8); stv[i] = 2 * (d * z[i] + zs) / (d + 1); x0v[i] = ctr[i] - z[i]; }
+        f0 = (double)vr_int(&g, -20, 20) / 4.0; hasstep = 1;
+      }
+      if(sc == 4){                                          /* general quadratic: x0 = m - A^-1 diag(A) s / 2, flat to rounding */
+        double rhs[MAXD], w[MAXD]; hasstep = 1;
+        for(int i = 0; i < dim; i++) stv[i] = (0.1 + 0.9 * vr_unif(&g)) * (vr_unif(&g) < 0.5 ? -1 : 1);
+        for(int tries = 0; tries < 6; tries++){
+          for(int i = 0; i < dim; i++) rhs[i] = A[i][i] * stv[i] / 2;
+          solve_spd(dim, rhs, w);
+          for(int i = 0; i < dim; i++) x0v[i] = ctr[i] - w[i];
+          if(init_spread(x0v, stv) < 4e-13) break;
+          for(int i = 0; i < dim; i++) stv[i] /= 2;
+        }
+        if(!(init_spread(x0v, stv) < 4e-13)) sc = 0;
+      }
+      if(sc == 5) for(int i = 0; i < dim; i++) x0v[i] = ctr[i];
+      if(sc == 6){ double nn = 0, u[MAXD]; for(int i = 0; i < dim; i++){ u[i] = vr_norm(&g); nn += u[i] * u[i]; } nn = sqrt(nn); if(nn == 0){ u[0] = 1; nn = 1; }
+                   double rad = 1e3 * (0.5 + vr_unif(&g)); for(int i = 0; i < dim; i++) x0v[i] = ctr[i] + rad * u[i] / nn; }
+      if(sc == 7){ static const int sds[6] = {-3, -2, -1, 1, 2, 3}; sd = sds[(id / 12) % 6]; hasstep = 1;
+                   for(int i = 0; i < dim; i++) stv[i] = pow(10.0, sd) * (0.2 + 0.8 * vr_unif(&g)) * (vr_unif(&g) < 0.5 ? -1 : 1); }
+      if(full && (sc >= 2 && sc <= 5) && dim <= 4) maxit = 4000 * (size_t)dim;      /* judged for convergence in the callback traces too */
+    }
     /* offset class (light runs only): the same quadratics with a minimum value of large magnitude and a coarser tolerance; the
        stop test is documented as ABSOLUTE (spread of the vertex values < xtol), so the returned point must still be within
        10 sqrt(max(xtol, resolution of f at |f*|)) of the minimiser (lambda_min = 1) */
-    int cls = (!full && id % 6 == 3) ? 1 : 0; double xtol = 1e-12; int xe = -12, fe = 1;
     if(cls){
       int k = 3 + 2 * (int)vr_int(&g, 0, 2); f0 = (vr_unif(&g) < 0.7 ? -1.0 : 1.0) * pow(10.0, k) * (0.1 + 0.9 * vr_unif(&g)); fe = k;
       xe = vr_unif(&g) < 0.5 ? -10 : -8; xtol = pow(10.0, xe); maxit = 4000 * (size_t)dim;
     }
+    dvector *x0, *best, *step = NULL; NewDVector(&x0, dim); initDVector(&best);
+    if(id % 3 == 1){ DVectorResize(best, 9); for(int i = 0; i < 9; i++) best->data[i] = 555.0; }      /* an already sized result vector holding other data */
+    for(int i = 0; i < dim; i++) x0->data[i] = x0v[i];
+    if(hasstep){ NewDVector(&step, dim); for(int i = 0; i < dim; i++) step->data[i] = stv[i]; }
     int R = xe > fe - 15 ? xe : fe - 15;
     long cap = (dim + 1) + (long)maxit * (dim + 3);
-    VRT_EMIT("{\"e\":\"Reset\",\"id\":%d,\"n\":%d,\"maxit\":%ld,\"cap\":%ld,\"full\":%d}", id, dim, (long)maxit, cap, full);
+    double spread = init_spread(x0v, stv);
+    VRT_EMIT("{\"e\":\"Reset\",\"id\":%d,\"n\":%d,\"maxit\":%ld,\"cap\":%ld,\"full\":%d,\"sc\":%d,\"sd\":%d,\"fs\":%ld,\"c100\":%d,\"st\":%d}", id, dim, (long)maxit, cap, full, sc, sd,
+             vq_unit(spread, 1e-15), cond == 100.0, hasstep);
     nevals = 0; logging = full; initbest = 0;
     double res = NelderMeadSimplex(quad, x0, step, xtol, maxit, best);
     long ev = nevals, l[3];
@@ -87,7 +202,9 @@ int main(int argc, char **argv){
     /* judged for convergence: runs with the large iteration budget; conv = it certainly stopped on its tolerance
      * (every iteration costs at least one evaluation) */
     int judge = maxit >= 1000, conv = ev < (long)(dim + 1) + (long)maxit;
-    VRT_EMIT("{\"e\":\"Quad\",\"dim\":%d,\"cond\":%ld,\"judge\":%d,\"conv\":%d,\"dist\":%ld,\"cls\":%d,\"R\":%d,\"adist\":%ld}", dim, (long)ceil(cond), judge, conv, shape ? vq9(dist) : VQ_MAX, cls, R, shape ? vq9(adist) : VQ_MAX);
+    VRT_EMIT("{\"e\":\"Quad\",\"dim\":%d,\"cond\":%ld,\"judge\":%d,\"conv\":%d,\"dist\":%ld,\"cls\":%d,\"R\":%d,\"adist\":%ld,\"sc\":%d}", dim, (long)ceil(cond), judge, conv, shape ? vq9(dist) : VQ_MAX, cls, R, shape ? vq9(adist) : VQ_MAX, sc);
+    pdim = dim; pcond = cond; pmaxit = maxit; pxtol = xtol; phas = hasstep;
+    for(int i = 0; i < dim; i++){ px0[i] = x0v[i]; pst[i] = stv[i]; }
     DelDVector(&x0); DelDVector(&best); if(step) DelDVector(&step);
   }
   vrt_close();
